@@ -128,7 +128,7 @@ def spell_list(R, fns, plain=False):
 
 def affine(R, kind=None):
     """a random invertible matrix (tuple) of a named class, cond <= ~400"""
-    k = kind or R.choice(["identity", "translate", "rotate", "uniform", "reflect", "aniso", "rot-aniso", "shear", "general", "general-neg"])
+    k = kind or R.choice(["identity", "translate", "rotate", "uniform", "reflect", "aniso", "rot-aniso", "aniso-rot", "shear", "general", "general-neg"])
     c = lambda: R.choice([0.0, float(R.randint(-50, 50)), round(R.uniform(-1000, 1000), 3)])
     if k == "identity":
         return k, (1.0, 0.0, 0.0, 1.0, 0.0, 0.0)
@@ -158,6 +158,11 @@ def affine(R, kind=None):
         sy = R.uniform(0.2, 8) * R.choice([1, 1, -1])
         # scale first, then rotate
         return k, (sx * ct, sx * st, -sy * st, sy * ct, c(), c())
+    if k == "aniso-rot":
+        # rotate first, then scale along the axes: the rows stay perpendicular, the images of the axes do not
+        sx = R.uniform(0.2, 8)
+        sy = R.uniform(0.2, 8) * R.choice([1, 1, -1])
+        return k, (sx * ct, sy * st, -sx * st, sy * ct, c(), c())
     if k == "shear":
         sh = R.uniform(-3, 3)
         if R.random() < 0.5:
